@@ -98,23 +98,9 @@ pub fn project_wire(p: &Project, dc: &DocCtx) -> Result<(Val, Val, Val), WireErr
   Ok((rule, utils, cons))
 }
 
-/// known-finding class of a rule by its features (narrow, see known_findings.txt)
-fn c05_class(p: &Project) -> &'static str {
-  let of_with_var = |k: &RKey| match k {
-    RKey::Nth { of: Some(o), .. } => {
-      let mut ps = vec![];
-      o.patterns(&mut ps);
-      ps.iter().any(|t| !vars_of(t).is_empty())
-    }
-    _ => false,
-  };
-  if p.has(&of_with_var) {
-    return "nth-ofrule-shared-env";
-  }
-  let has_field_stoprule = |k: &RKey| matches!(k, RKey::Has(r) if r.field.is_some() && matches!(r.stop, Stop::Rule(_)));
-  if p.has(&has_field_stoprule) {
-    return "has-field-stoprule-two-levels";
-  }
+/// known-finding class of a rule by its features (none left: the four evaluator defects of the pinned
+/// tree were repaired by fix: commits, see known_findings.txt)
+fn c05_class(_p: &Project) -> &'static str {
   ""
 }
 
